@@ -32,6 +32,18 @@ pub fn hf(id: u32, x: f64) -> f64 {
         (k * x).sin() + 0.25 * k * x * x - (0.3 * x).exp() / k
     }
 }
+/// the gamma function as an uninterpreted symbol (C02: normalising constants; natively the crate's gamma)
+#[inline(never)]
+pub fn gamma_uf(x: f64) -> f64 {
+    #[cfg(kani)]
+    unsafe {
+        __CPROVER_uninterpreted_h_f1(1000, x)
+    }
+    #[cfg(not(kani))]
+    {
+        compute::functions::gamma(x)
+    }
+}
 #[inline(never)]
 pub fn hf2(id: u32, x: f64, y: f64) -> f64 {
     #[cfg(kani)]
@@ -337,6 +349,22 @@ macro_rules! harness {
         #[cfg_attr(kani, kani::unwind($u))]
         #[cfg_attr(kani, kani::stub(compute::linalg::is_square, $crate::stubs::is_square))]
         #[cfg_attr(kani, kani::stub(f64::abs, $crate::rt::fabs))]
+        pub fn $name() {
+            $body;
+            $crate::rt::finish();
+        }
+    };
+}
+
+/// Same as `harness!`, with `compute::functions::gamma` replaced by an uninterpreted function.
+#[macro_export]
+macro_rules! harness_g {
+    (name=$name:ident, prop=$p:ident, mode=$m:ident, kind=$k:ident, tier=$t:ident, unwind=$u:expr, $body:block) => {
+        #[cfg_attr(kani, kani::proof)]
+        #[cfg_attr(kani, kani::unwind($u))]
+        #[cfg_attr(kani, kani::stub(compute::linalg::is_square, $crate::stubs::is_square))]
+        #[cfg_attr(kani, kani::stub(f64::abs, $crate::rt::fabs))]
+        #[cfg_attr(kani, kani::stub(compute::functions::gamma, $crate::rt::gamma_uf))]
         pub fn $name() {
             $body;
             $crate::rt::finish();
